@@ -60,6 +60,15 @@ CHECKS = {
          "factors, the general factor is covered for one note. Floats as reals.",
     technique="symbolic execution of real code (CrossHair/z3) vs exact tempo-integral oracle",
     ref="DESIGN.md §2 C06"),
+ "C10": dict(
+    text="Symbolic execution of time_signature_map/key_signature_map/clef_map (<=3 elements per kind, symbolic start times and fifths, staves "
+         "with and without clef, positions before the first element) and of measure_map/measure_number_map/metrical_position_map (1-4 "
+         "contiguous measures with symbolic barlines, pickup/full/overlong first bar decided symbolically) against 'latest element starting "
+         "at or before t' / 'measure containing t' oracles; scalar vs list queries compared. Path trees exhausted per shape.",
+    note="Models: interp1d, PPoly, np constructors, defaultdict. Measures contiguous from time 0; gaps between measures and time-signature "
+         "changes inside the measure harness are outside. Known finding KF-C10-pickup-short-part.",
+    technique="symbolic execution of real code (CrossHair/z3) vs in-force oracle",
+    ref="DESIGN.md §2 C10"),
 }
 NOT_APPLICABLE = {
  "C18": "float32/transcendental codec chain (log2, 2**x, mean/std, symbolic/symbolic division) over ~600 lines of vectorised numpy: non-linear with transcendental terms, z3 answers unknown; no sound bounded encoding within reach (DESIGN.md §2 C18)",
